@@ -679,3 +679,31 @@ def check_partial_amount_accessors(rep: Report, rule: str) -> None:
     cl = ci.methods.get("clear_partial_amount")
     t = [unparse(s2) for s2 in cl.body] if cl else []
     rep.check(t == ["self.set_partial_amount(acquired_lot, ZERO)"], rule, AAM, "AbstractAcquiredLotCandidates.clear_partial_amount", "clear_partial_amount(lot) = set_partial_amount(lot, ZERO)", f"clear_partial_amount is {t}", loc(cl.node) if cl else loc(ci.node))
+
+
+# ---------------------------------------------------------------------------
+# every entry of the year -> method schedule gets its own candidate structure
+def check_schedule_traversal(rep: Report, rule: str) -> None:
+    """AccountingEngine.initialize walks the year->method tree and inserts one candidates object per node under the node's own key:
+    both children of every node are scheduled under independent conditions (an 'elif' skips the right subtree of nodes with two
+    children: the method of a skipped year then runs over another year's heap, ordered by the other method's key)."""
+    m = model()
+    prog = m.prog
+    init = prog.func(AE, "AccountingEngine.initialize")
+    rep.analysed(init)
+    loops = [n for n in ast.walk(init.node) if isinstance(n, ast.While) and any(isinstance(c, ast.Call) and isinstance(c.func, ast.Attribute) and c.func.attr == "create_lot_candidates" for c in ast.walk(n))]
+    if len(loops) != 1:
+        raise AnalysisError("AccountingEngine.initialize: traversal loop that creates the lot candidates not found")
+    lp = loops[0]
+    where = loc(lp)
+    inserts = [n for n in ast.walk(lp) if isinstance(n, ast.Call) and isinstance(n.func, ast.Attribute) and n.func.attr == "insert_node" and "lot_candidates" in unparse(n.func.value)]
+    node_var = unparse(lp.test).split(" ")[0] if isinstance(lp.test, ast.Compare) else unparse(lp.test)
+    ok_ins = len(inserts) == 1 and len(inserts[0].args) == 2 and unparse(inserts[0].args[0]) == f"{node_var}.key" and unparse(inserts[0].args[1]).startswith(f"{node_var}.value.create_lot_candidates(") and inserts[0] in [c for st in lp.body for c in ast.walk(st) if st in lp.body and not isinstance(st, ast.If)]
+    rep.check(ok_ins, rule, init.module, init.qualname, "every visited schedule node gets candidates under its own year, unconditionally", f"the traversal inserts {[short(i, 100) for i in inserts]}; expected exactly one unconditional insert_node({node_var}.key, {node_var}.value.create_lot_candidates(...)) per visited node", where)
+    pushes = {}
+    for st in lp.body:
+        if isinstance(st, ast.If):
+            for side in ("left", "right"):
+                if unparse(st.test) in (f"{node_var}.{side}", f"{node_var}.{side} is not None") and any(isinstance(c, ast.Call) and isinstance(c.func, ast.Attribute) and c.func.attr in ("append", "push", "appendleft") and unparse(c.args[0]) == f"{node_var}.{side}" for b in st.body for c in ast.walk(b)):
+                    pushes[side] = st
+    rep.check(set(pushes) == {"left", "right"}, rule, init.module, init.qualname, "both children of every schedule node are scheduled, under independent top-level conditions", f"the traversal schedules {sorted(pushes)} children with top-level, independent 'if' statements (found {[short(st.test, 30) for st in lp.body if isinstance(st, ast.If)]}; an elif / nested test skips a subtree): the years in a skipped subtree get no candidate structure, so their disposals are matched over another year's candidates, ordered by the other method's key", where)
